@@ -126,6 +126,7 @@ class AnyDeserialize:
 class SetDeserialize:
     kinds = {"data": "list", "values": "set"}
     raises = ["ValidationError"]
+    exports = ["C01: returns iff data is an array whose elements all conform and whose constraints hold", "C01: image is a set"]
 
     def requires(self, c):
         s = c.self
@@ -148,6 +149,7 @@ class SetDeserialize:
         out = {"C01: returns iff data is an array whose elements all conform and whose constraints hold": c.returned == conforms}
         if c.is_return:
             r = c.result
+            out["C01: image is a set"] = cls(r) == K("set")
             out["C01: image is a fresh set holding exactly the elements' images"] = z3.And(
                 cls(r) == K("set"),
                 c.fresh(r),
